@@ -406,6 +406,22 @@ def job_misc(_):
             break
     out.append(res("C18.decode_samples.arguments-spelled-by-the-sample", PROVED, **base) if not bad else
                res("C18.decode_samples.arguments-spelled-by-the-sample", REFUTED, replayed=True, replay=bad, **base))
+    # a sample SET: the i-th decoded entry belongs to the i-th sample (energies neither ascending nor descending, repeated samples)
+    order = [5, 0, 7, 2, 2, 6, 1, 3, 4, 0]
+    samples = [{"a.0": r & 1, "a.1": (r >> 1) & 1, "b": (r >> 2) & 1, "_ret": (i % 2)} for i, r in enumerate(order)]
+    bad = None
+    try:
+        ds = decode_samples(qf, samples)
+        if len(ds) != len(samples):
+            bad = dict(observed=f"{len(ds)} entries for {len(samples)} samples")
+        for i, (r, d_) in enumerate(zip(order, ds)):
+            ea, eb = (r & 1) + 2 * ((r >> 1) & 1), bool((r >> 2) & 1)
+            if not bad and (int(d_.sample["a"]) != ea or bool(d_.sample["b"]) != eb):
+                bad = dict(samples=samples, position=i, observed=str(d_.sample), expected=dict(a=ea, b=eb))
+    except Exception as ex:  # noqa
+        bad = dict(observed=f"raises {type(ex).__name__}: {ex}"[:200])
+    nm_ = "C18.decode_samples.entry-i-decodes-sample-i[10 samples, mixed energies]"
+    out.append(res(nm_, PROVED, **base) if not bad else res(nm_, REFUTED, replayed=True, replay=bad, **base))
     # samples that LACK a variable (the model does not mention a bit the function does not depend on): the value of the missing bit is open, every
     # bit the sample does spell must sit at its own position; several arguments, a 3-bit argument, each bit missing in turn
     qf3 = qlassf("def t(a: Qint[3], b: Qint[2]) -> bool:\n\treturn a == 5 and b == 2", to_compile=False)
@@ -452,7 +468,7 @@ def run(tier, only=None):
     jobs.append((job_misc, None))
     jobs += [(job_induct, "symbol"), (job_induct, "hole")]
     from . import c01_l3
-    fam = [x for x in c01_l3.family(tier) if x[0] != "outside"]
+    fam = [x for x in c01_l3.family(tier, front=True) if x[0] != "outside"]
     fmts = ("pq_model",) if tier == "quick" else ("bqm", "ising", "qubo", "pq_model")
     for lo in range(0, len(fam), 12):
         jobs.append((job_family, (fam[lo:lo + 12], fmts)))
